@@ -152,8 +152,6 @@ theorem G_popTo {pf : Bytes → UInt64} (σ : List PS) (op : Op) (w' : Bytes)
   | nil => exact .top (by simpa [popTo, G] using h)
   | cons p σ => simpa [popTo, goTo, G] using h
 
-theorem ws_nil : WS [] := by intro c hc; simp at hc
-
 theorem back_endValue {pf : Bytes → UInt64} (σ : List PS) (c : UInt8) (w' : Bytes)
     (hne : (stateEndValue σ c).step ≠ .error)
     (h : G pf (stateEndValue σ c).step (stateEndValue σ c).stack w') : After pf σ (c :: w') := by
